@@ -49,7 +49,17 @@ def is_tb(m: Instantiable) -> bool:
     """Boolean indication of whether Instantiable `m` meets the test-bench interface."""
     if not isinstance(m, (Module, ExternalModuleCall)):
         # Also filter out `Primitive`s, which don't work as testbenches
-        raise TypeError(f"Invalid un-instantiable argument {i} to `is_tb`")
+        raise TypeError(f"Invalid un-instantiable argument {m} to `is_tb`")
+    if not isinstance(m, Module):
+        return False  # Only `Module`s can be elaborated into, and exported as, testbenches
+
+    # Bundle-valued ports are not part of the testbench interface - whether `m` has been elaborated, and they flattened, or not.
+    io = m._pre_flattening_io if m._pre_flattening_io is not None else None
+    if io is not None:
+        if len(io) != 1 or not isinstance(list(io.values())[0], Signal):
+            return False
+    elif m.bundle_ports:
+        return False
 
     if len(m.ports) != 1:
         return False
